@@ -272,7 +272,7 @@ find_closest_mem_vload(struct elfdump_priv *edp, kdump_vaddr_t vaddr,
 		if (pls->memsz && vaddr <= pls->virt + pls->memsz - 1) {
 			if (vaddr < pls->virt && pls->virt - vaddr > dist)
 				break;
-			return edp->last_load = pls;
+			return edp->last_vload = pls;
 		}
 	}
 	return NULL;
@@ -300,7 +300,7 @@ find_closest_file_vload(struct elfdump_priv *edp, kdump_vaddr_t vaddr,
 		if (pls->filesz && vaddr <= pls->virt + pls->filesz - 1) {
 			if (vaddr < pls->virt && pls->virt - vaddr > dist)
 				break;
-			return edp->last_load = pls;
+			return edp->last_vload = pls;
 		}
 	}
 	return NULL;
@@ -1413,7 +1413,7 @@ static int
 seg_virt_cmp(const void *a, const void *b)
 {
 	const struct load_segment *la = a, *lb = b;
-	return la->phys != lb->phys ? (la->phys < lb->phys ? -1 : 1) : 0;
+	return la->virt != lb->virt ? (la->virt < lb->virt ? -1 : 1) : 0;
 }
 
 static kdump_status
